@@ -305,9 +305,11 @@ func (runInfo *runInfoStruct) runLetMapItemStmt(stmt *ast.LetMapItemStmt) {
 	}
 	var rvs []reflect.Value
 	if isNil(runInfo.rv) {
-		rvs = []reflect.Value{nilValue, falseValue}
+		// a nil of its own: the shared nilValue must not become a variable's storage
+		rvs = []reflect.Value{reflect.New(nilValue.Type()).Elem(), falseValue}
 	} else {
-		rvs = []reflect.Value{runInfo.rv, trueValue}
+		// the value read is a value: a later store into the slot must not show in the variable
+		rvs = []reflect.Value{unalias(runInfo.rv), trueValue}
 	}
 	var i int
 	for i, runInfo.expr = range stmt.LHSS {
@@ -741,7 +743,8 @@ func (runInfo *runInfoStruct) runSwitchStmt(stmt *ast.SwitchStmt) {
 		runInfo.env = env
 		return
 	}
-	value := runInfo.rv
+	// the subject is a value once evaluated: a case expression may store into the slot it was read from
+	value := unalias(runInfo.rv)
 
 	for _, switchCaseStmt := range stmt.Cases {
 		caseStmt := switchCaseStmt.(*ast.SwitchCaseStmt)
